@@ -139,7 +139,8 @@ def make_cp_class(version, routes):
     specs = {}
     env = {"_on_body": _on_body, "_after_body": _after_body}
     for r in routes:
-        for kind, deco in (("on", on), ("after", after)):
+        order = (("after", after), ("on", on)) if r.get("after_first") else (("on", on), ("after", after))
+        for kind, deco in order:
             h = r.get(kind)
             if not h:
                 continue
@@ -158,12 +159,12 @@ def make_cp_class(version, routes):
     return cls
 
 
-def observe_frame(version, routes, raw, async_validation=False, settle=3):
+def observe_frame(version, routes, raw, async_validation=False, settle=3, send_ok=True):
     """Run one route_message(raw) on a fresh endpoint; return the ordered observation."""
     import ocpp.messages as M
 
     rec = Recorder()
-    conn = Conn(rec)
+    conn = Conn(rec, fail_sends=None if send_ok else {0})
     cls = make_cp_class(version, routes)
     old = M.ASYNC_VALIDATION
     M.ASYNC_VALIDATION = async_validation
@@ -281,7 +282,9 @@ def cobs(seq):
             out.append("(OEnqueue %s)" % cmsg(ev[1]))
         elif k == "escape":
             out.append("OEscape")
-        elif k in ("recv", "send-failed"):
+        elif k == "send-failed":
+            out.append("OWriteFailed")
+        elif k == "recv":
             continue
         else:
             raise AssertionError(ev)
